@@ -247,7 +247,7 @@ class Check:
                 if fingerprint not in [h[0] for h in self.known_hits]:
                     self.known_hits.append((fingerprint, k.get("what", what)))
                 return
-        if len(self.violations) < 20:
+        if len(self.violations) < 20 and fingerprint not in [v["fingerprint"] for v in self.violations]:
             self.violations.append({"fingerprint": fingerprint, "what": what, "replay": replay})
 
     def finish(self):
@@ -258,6 +258,7 @@ class Check:
             print("KNOWN-FINDING: property=%s %s" % (self.pid, what))
         # broken obligations without a concrete failing input
         concrete = [v for v in self.violations if v["replay"].get("kind") != "obligation-failed"]
+        printed = set()
         for v in self.violations:
             kind = v["replay"].get("kind", "impl-counterexample")
             path = os.path.join(VERIF, "replays", "%s-%s.json" % (self.pid, case_key([v["fingerprint"], v["what"]])))
@@ -266,6 +267,9 @@ class Check:
                         "what": v["what"], "replay_cmd": "bin/check replay " + path})
             with open(path, "w") as f:
                 json.dump(rep, f, indent=1, sort_keys=True)
+            if path in printed:
+                continue
+            printed.add(path)
             if kind == "obligation-failed" and not concrete:
                 print("VIOLATION property=%s replay=%s no-failing-input-found" % (self.pid, path))
                 rc = 1
